@@ -512,7 +512,10 @@ impl Compiler {
             self.builder.patch_jump(jump);
         }
 
-        // If jumping out due to test failure, need to pop scope
+        // If jumping out due to test failure, need to pop scope.  This point is reached
+        // from inside the per-iteration scope (the PopScope above belongs to the path
+        // that jumps back), so the tracked depth is one less than the real one here.
+        self.builder.enter_scope_untracked();
         self.builder.emit(Op::PopScope);
 
         // Pop loop context
